@@ -28,7 +28,12 @@ RULE = ('cases = conversations: 1-5 requests (GET/POST/PUT/DELETE, bodies none /
         'or one byte at a time), under eager or lazy flushing and short writes; plus a malformed stream (garbage between requests, '
         'invalid follow-up request lines, non-keep-alive follow-ups, CONNECT with payload in the same segment, early close by client '
         'or origin) and the corpus witnesses.  Non-trivial: at least two requests were answered on the connection, or one of the '
-        'recorded defects was reproduced; distinct = distinct (configuration, script)')
+        'recorded defects was reproduced; distinct = distinct (configuration, script).  Connection header on any request: absent or '
+        'keep-alive / Keep-Alive / KEEP-ALIVE under Connection / connection / CONNECTION; conversations ended by close / Close / CLOSE or '
+        'HTTP/1.0 on the first, a middle or the last request (the oracle then requires the responses up to and including that request). '
+        'extra_checks: the oracle on ALL packings into <= 3 segments of short conversations, and 6 LIVE keep-alive conversations '
+        '(sequential, pipelined, mixed, two client connections, forward proxy and web server) through a real proxy.Proxy with one '
+        'threadless worker on loopback against a threaded origin: one response per request, in order, connection still open')
 TRUSTED = ['write side abstracted: a connection is the ordered list of pieces queued on it; delivery of exactly these bytes under every '
            'short-write pattern is C01 (flush_conservation), before teardown C07; the harness flushes everything and compares concatenations',
            'the bookkeeping response parser of HttpProxyPlugin.read_from_descriptors is absent from the model: relies on proposed_fixes/C01-guard-response-parse.diff',
